@@ -55,8 +55,8 @@ func guarded(id string) {
 		ev := map[string]any{"property_id": id, "tier": tier, "seed": seed, "level": "exploration", "wall_s": 0, "violations": violations, "assumptions": []string{},
 			"coverage": map[string]any{"evaluations": 0, "distinct_nontrivial": 0, "rule": "the check process ended abnormally before it could report what it covered", "samples": []string{note}, "inconclusive": []string{note}}}
 		b, _ := json.MarshalIndent(ev, "", " ")
-		os.MkdirAll(filepath.Join(vlib.VerifDir(), "evidence"), 0o755)
-		os.WriteFile(filepath.Join(vlib.VerifDir(), "evidence", id+".json"), b, 0o644)
+		os.MkdirAll(vlib.EvidenceDir(), 0o755)
+		os.WriteFile(filepath.Join(vlib.EvidenceDir(), id+".json"), b, 0o644)
 	}
 	sig, asViolation := guardedAsViolation[id]
 	if k := strings.Index(stderr, "fatal error: "); k >= 0 && asViolation && !strings.Contains(stderr[k:min(len(stderr), k+200)], "out of memory") {
